@@ -35,12 +35,6 @@ class TW(object):
         self.hop_frames = {}
         self.hop_abandon = {}
 
-    def C(self):
-        self.cond += 1
-        if self.cond > 40:
-            return 0
-        return self.tape.choose(2)
-
     async def block(self, bid):
         # blocking point of a task in a nursery body / at top level
         t = self.trio.lowlevel.current_task()
@@ -50,6 +44,11 @@ class TW(object):
     def leaving(self, bid):
         t = self.trio.lowlevel.current_task()
         self.info.setdefault(t, {})["blocks"] = ("aexit", bid)
+
+    def starting(self, bid):
+        t = self.trio.lowlevel.current_task()
+        self.info.setdefault(t, {})["blocks"] = ("start", bid)
+        self.ctx.stat("blocked_in_nursery_start")
 
     def enter(self, fname):
         t = self.trio.lowlevel.current_task()
@@ -86,7 +85,7 @@ class TW(object):
         except BaseException:
             pass
 
-    async def hop(self, depth, key):
+    async def hop(self, depth, key, flags=()):
         """to_thread/from_thread ping-pong of the given alternation depth, ending parked."""
         self.expected_parked += 1
         # the same task function may run in several sibling tasks: one chain per task
@@ -95,11 +94,9 @@ class TW(object):
         self.hops[key] = depth
         t = self.trio.lowlevel.current_task()
         self.info.setdefault(t, {})["blocks"] = ("hop", depth, key)
-        # whether each to_thread.run_sync of the chain may abandon its thread on cancellation: a
-        # re-entrant from_thread.run is then served by a system task instead of the waiting task.
-        # Drawn here, in task context (the order in which worker threads get back into Trio is
-        # not the tape's).
-        self.hop_abandon[key] = [self.tape.choose(3) == 2 for _ in range(depth // 2 + 1)]
+        # flags: whether each to_thread.run_sync of the chain may abandon its thread on cancellation
+        # (a re-entrant from_thread.run is then served by a system task instead of the waiting task)
+        self.hop_abandon[key] = list(flags)
         if any(self.hop_abandon[key][: (depth + 1) // 2]):
             self.ctx.stat("reentrant_call_served_by_system_task")
         await self.trio.to_thread.run_sync(self.sync_fn, depth, key, abandon_on_cancel=self.next_abandon(key))
@@ -137,11 +134,17 @@ class TrioGen(object):
             if c == 0 or depth == 0:
                 body.append("    await W.block(%d)" % self.id())
             else:
-                body.append("    await W.hop(%d, %d)" % (t.choose(4), self.id()))
+                hd = t.choose(4)
+                # everything random about the chain is decided here, at generation time: while the
+                # program runs, worker and foreign threads wake the Trio loop at times of their own,
+                # so the order in which tasks would draw from the tape is not reproducible
+                flags = tuple(t.choose(3) == 2 for _ in range(hd // 2 + 1))
+                body.append("    await W.hop(%d, %d, %r)" % (hd, self.id(), flags))
             self.lines.extend(["async def %s(W):" % name] + body + [""])
             return name
         # nested nurseries
         children_of = []
+        used_es = False
         for k in range(nn):
             if t.choose(4) == 0:
                 self.ncm = getattr(self, "ncm", 0) + 1
@@ -154,6 +157,13 @@ class TrioGen(object):
                     "",
                 ])
                 body.append("    " * ind + "async with %s(W) as n%d:" % (cm, k))
+            elif t.choose(5) == 0:
+                # the nursery is entered through an exit stack
+                used_es = True
+                body.append("    " * ind + "async with contextlib.AsyncExitStack() as es%d:" % k)
+                ind += 1
+                body.append("    " * ind + "n%d = await es%d.enter_async_context(trio.open_nursery())" % (k, k))
+                ind -= 1
             else:
                 body.append("    " * ind + "async with trio.open_nursery() as n%d:" % k)
             ind += 1
@@ -163,14 +173,29 @@ class TrioGen(object):
                 if self.ntasks > 12:
                     break
                 self.ntasks += 1
+                if t.choose(5) == 4:
+                    # started with nursery.start(): the child reports in, then blocks
+                    body.append("    " * ind + "await n%d.start(%s, W)" % (k, self.started_fn(True)))
+                    continue
                 if child is None or t.choose(3) != 0:
                     child = self.task_fn(depth + 1)
                 # (otherwise: the same function again - sibling tasks with equal names)
                 body.append("    " * ind + "n%d.start_soon(%s, W)" % (k, child))
         # how the innermost body ends
-        end = t.weighted([3, 3, 1, 1, 1, 1])
+        end = t.weighted([3, 3, 1, 1, 1, 1, 1])
+        if used_es and end not in (0, 6):
+            # while an exit stack unwinds, the callback it has popped and is running (here: the
+            # nursery's __aexit__) belongs to no with statement and to no stack any more: stackscope
+            # has no way to show it (C09 states the same for plain managers).  Stay in the body.
+            end = 0
         bid = self.id()
-        if end == 0:
+        if end == 6:
+            # the child never reports in: this task stays inside Nursery.start(), which keeps the
+            # child in a nursery of its own until then
+            self.ntasks += 1
+            body.append("    " * ind + "W.starting(%d)" % bid)
+            body.append("    " * ind + "await n%d.start(%s, W)" % (nn - 1, self.started_fn(False)))
+        elif end == 0:
             body.append("    " * ind + "await W.block(%d)" % bid)
         elif end == 1:
             body.append("    " * ind + "W.leaving(%d)" % bid)
@@ -186,7 +211,7 @@ class TrioGen(object):
             body.append("    " * (ind + 1) + "W.leaving(%d)" % bid)
         elif end == 4:
             body.append("    " * ind + "W.leaving(%d)" % bid)
-            body.append("    " * ind + "if W.C():")
+            body.append("    " * ind + "if %s:" % bool(t.choose(2)))
             body.append("    " * (ind + 1) + "return 5")
         else:
             body.append("    " * ind + "W.leaving(%d)" % bid)
@@ -194,6 +219,16 @@ class TrioGen(object):
             body.append("    " * (ind + 1) + "cs%d.cancel()" % bid)
             body.append("    " * (ind + 1) + "await trio.sleep(0)")
         self.lines.extend(["async def %s(W):" % name] + body + [""])
+        return name
+
+    def started_fn(self, reports_in):
+        self.nfun += 1
+        name = "s%d" % self.nfun
+        body = ["    W.enter(%r)" % name]
+        if reports_in:
+            body.append("    task_status.started()")
+        body.append("    await W.block(%d)" % self.id())
+        self.lines.extend(["async def %s(W, task_status=trio.TASK_STATUS_IGNORED):" % name] + body + [""])
         return name
 
     def generate(self):
@@ -231,6 +266,11 @@ def walk_check(ctx, W, task, st, depth=0):
                 elif c.inner_stack is not None:
                     # a nursery opened inside an @asynccontextmanager lives in its inner stack
                     scan(c.inner_stack)
+                else:
+                    # a nursery entered through an exit stack is one of that context's children
+                    for ch in c.children:
+                        if isinstance(ch, stackscope.Context) and isinstance(ch.obj, trio.Nursery):
+                            found.append((f, ch))
 
     scan(st)
     nurseries = list(task.child_nurseries)
@@ -257,11 +297,16 @@ def walk_check(ctx, W, task, st, depth=0):
             remaining.remove(m[0])
             walk_check(ctx, W, m[0], s, depth + 1)
         is_last = i == len(nurseries) - 1
-        if blocks and blocks[0] == "aexit" and is_last:
+        if blocks and blocks[0] == "start" and is_last:
+            # the innermost nursery is the one Nursery.start() keeps the child in; the task
+            # waits in its __aexit__ until the child reports in
+            if not c.is_exiting:
+                raise Violation("c14_exiting_flag", "task %s waits in Nursery.start() (the __aexit__ of its internal nursery) but that context is not is_exiting" % task.name, {})
+        elif blocks and blocks[0] == "aexit" and is_last:
             ctx.stat("blocked_in_aexit")
             if not c.is_exiting:
                 raise Violation("c14_exiting_flag", "task %s waits in its innermost nursery's __aexit__ but the context is not is_exiting" % task.name, {})
-        elif blocks and blocks[0] in ("body", "hop"):
+        elif blocks and blocks[0] in ("body", "hop", "start"):
             if c.is_exiting:
                 raise Violation("c14_exiting_flag", "task %s blocks in the nursery body but the context is is_exiting" % task.name, {})
     # down to its blocking point
@@ -273,6 +318,12 @@ def walk_check(ctx, W, task, st, depth=0):
         names = [f.funcname for f in vis]
         if "block" not in names and "async_fn" not in names:
             raise Violation("c14_blocking_point", "task %s blocks in W.block() but visible frames are %r" % (task.name, names), {})
+        if vis and vis[-1].funcname in ("wait_task_rescheduled",):
+            raise Violation("c14_trap_visible", "trap frame visible at the end of %s" % task.name, {})
+    if blocks and blocks[0] == "start":
+        names = [f.funcname for f in vis]
+        if "start" not in names:
+            raise Violation("c14_blocking_point", "task %s waits inside Nursery.start() but visible frames are %r" % (task.name, names), {})
         if vis and vis[-1].funcname in ("wait_task_rescheduled",):
             raise Violation("c14_trap_visible", "trap frame visible at the end of %s" % task.name, {})
     if blocks and blocks[0] == "hop":
@@ -333,7 +384,9 @@ def run_tree(ctx):
         th = foreign["thread"]
         with warnings.catch_warnings(record=True) as wl:
             warnings.simplefilter("always")
+            ctx.in_sut(True)
             st = stackscope.extract(th)
+            ctx.in_sut(False)
         bad = [w for w in wl if issubclass(w.category, stackscope.InspectionWarning)]
         if bad:
             raise Violation("c14_warning", "InspectionWarning while extracting the foreign thread: %s" % str(bad[0].message)[:200], {})
@@ -367,8 +420,10 @@ def run_tree(ctx):
         try:
             with warnings.catch_warnings(record=True) as wl:
                 warnings.simplefilter("always")
+                ctx.in_sut(True)
                 st = stackscope.extract(root, recurse_child_tasks=True)
                 st_stub = stackscope.extract(root, recurse_child_tasks=False)
+                ctx.in_sut(False)
             result["st"] = st
             result["stub"] = st_stub
             result["warnings"] = [w for w in wl if issubclass(w.category, stackscope.InspectionWarning)]
